@@ -164,14 +164,14 @@ def gaussian_blurring(
         if ndim == 2:
             for i in range(ngrids[0]):
                 for j in range(ngrids[1]):
-                    indice = i * ngrids[0] + j
+                    indice = i * ngrids[1] + j
                     grid_positions[n, indice] = [X[i], Y[j]]
         else:
             Z = np.linspace(bxobounds[2, 0], bxobounds[2, 1], ngrids[2])
             for i in range(ngrids[0]):
                 for j in range(ngrids[1]):
                     for k in range(ngrids[2]):
-                        indice = i * ngrids[0] + j * ngrids[1] + k
+                        indice = (i * ngrids[1] + j) * ngrids[2] + k
                         grid_positions[n, indice] = [X[i], Y[j], Z[k]]
 
         for i in range(grid_positions.shape[1]):
